@@ -16,6 +16,7 @@ pub enum Profile {
     Big,
     Batch,
     Oversize,
+    Regrow,
 }
 
 pub const PROFILES: [Profile; 8] = [
@@ -42,6 +43,7 @@ impl Profile {
             "big" => Self::Big,
             "batch" => Self::Batch,
             "oversize" => Self::Oversize,
+            "regrow" => Self::Regrow,
             _ => return None,
         })
     }
@@ -57,6 +59,7 @@ impl Profile {
             Self::Big => "big",
             Self::Batch => "batch",
             Self::Oversize => "oversize",
+            Self::Regrow => "regrow",
         }
     }
 }
@@ -68,19 +71,25 @@ pub struct GenCfg {
     pub ttl: Option<u64>,
     pub tti: Option<u64>,
     pub hash: HashKind,
+    pub initcap: Option<u64>,
 }
 
 impl GenCfg {
     pub fn line(&self, seed: u64, profile: Profile) -> String {
         let o = |x: Option<u64>| x.map(|v| v.to_string()).unwrap_or_else(|| "none".into());
+        let ic = match self.initcap {
+            Some(i) => format!(" initcap={}", i),
+            None => String::new(),
+        };
         format!(
-            "cfg kind={} cap={} w={} ttl={} tti={} hash={} profile={} seed={}",
+            "cfg kind={} cap={} w={} ttl={} tti={} hash={}{} profile={} seed={}",
             self.kind,
             o(self.cap),
             self.weigher.name(),
             o(self.ttl),
             o(self.tti),
             self.hash.name(),
+            ic,
             profile.name(),
             seed
         )
@@ -92,6 +101,7 @@ pub fn gen_cfg(rng: &mut Rng, kind: &'static str, profile: Profile, capmode: &st
         _ if capmode == "none" => None,
         _ if capmode == "large" => Some(rng.pick(&[100_000u64, 1_000_000])),
         Profile::Big => Some(rng.pick(&[129u64, 150, 200, 256])),
+        Profile::Regrow => Some(rng.pick(&[600u64, 1000, 1500])),
         Profile::Batch => rng.pick(&[None, Some(1000u64), Some(400), Some(130)]),
         Profile::Scan => Some(rng.pick(&[2u64, 3, 4, 5, 8])),
         Profile::Oversize => Some(rng.pick(&[1u64, 2, 3, 5, 8, 10])),
@@ -110,7 +120,7 @@ pub fn gen_cfg(rng: &mut Rng, kind: &'static str, profile: Profile, capmode: &st
     };
     let c = cap.unwrap_or(8);
     let weigher = match profile {
-        Profile::Oversize => WeigherKind::Val,
+        Profile::Oversize | Profile::Regrow => WeigherKind::Val,
         Profile::Growth => rng.pick(&[
             WeigherKind::VMod(4),
             WeigherKind::VMod(c + 2),
@@ -139,11 +149,13 @@ pub fn gen_cfg(rng: &mut Rng, kind: &'static str, profile: Profile, capmode: &st
     let durs = [0u64, SEC, 3 * SEC, 10 * SEC];
     let (ttl, tti) = match profile {
         Profile::Batch if weigher == WeigherKind::Val && rng.chance(1, 2) => (None, None),
-        Profile::Batch => match rng.below(3) {
+        Profile::Batch => match rng.below(4) {
             0 => (Some(rng.pick(&[SEC, 3 * SEC])), None),
             1 => (None, Some(rng.pick(&[SEC, 3 * SEC]))),
+            2 => (Some(SEC), Some(3 * SEC)),
             _ => (Some(3 * SEC), Some(SEC)),
         },
+        Profile::Regrow => (None, None),
         Profile::Boundary => match rng.below(3) {
             0 => (Some(rng.pick(&durs)), None),
             1 => (None, Some(rng.pick(&durs))),
@@ -162,14 +174,23 @@ pub fn gen_cfg(rng: &mut Rng, kind: &'static str, profile: Profile, capmode: &st
         6 => HashKind::Mod2,
         _ => HashKind::Top,
     };
-    GenCfg { kind, cap, weigher, ttl, tti, hash }
+    GenCfg { kind, cap, weigher, ttl, tti, hash, initcap: None }
 }
 
 /// One generated case: the cfg line followed by op lines (a `snap` after each op when
 /// `white_box`).
 pub fn gen_case(seed: u64, kind: &'static str, profile: Profile, len: usize, white_box: bool, capmode: &str) -> Vec<String> {
     let mut rng = Rng::new(seed);
-    let cfg = gen_cfg(&mut rng, kind, profile, capmode);
+    let mut cfg = gen_cfg(&mut rng, kind, profile, capmode);
+    {
+        // `initial_capacity` (C17: no observable effect) from an independent stream, so that the
+        // histories of a seed are the same with and without it
+        let mut r2 = Rng::new(splitmix(seed ^ 0x1ca9_ac17));
+        if r2.chance(1, 3) {
+            let c = cfg.cap.unwrap_or(16).min(100_000);
+            cfg.initcap = Some(r2.pick(&[0, 1, c / 2, c / 2 + 1, c, c.saturating_mul(4), 1000]));
+        }
+    }
     let mut out = vec![cfg.line(seed, profile)];
     let sync = kind == "sync";
     let nkeys: u64 = match profile {
@@ -236,6 +257,71 @@ pub fn gen_case(seed: u64, kind: &'static str, profile: Profile, len: usize, whi
         out.push("drop".into());
         return out;
     }
+    if profile == Profile::Regrow {
+        // A weighted cache whose popularity sketch is sized while it holds a few heavy entries and
+        // which then holds hundreds of light ones: lookups recorded early must still count later.
+        let c = cfg.cap.unwrap_or(1000);
+        let heavy = 6 + rng.below(8);
+        let hv = c / 10 + rng.below(c / 20 + 1);
+        let hot = [5000u64, 5001, 5002];
+        for i in 0..heavy {
+            push(&mut out, format!("ins {} {}", 1000 + i, hv));
+            if rng.chance(1, 3) {
+                push(&mut out, format!("get {}", 1000 + rng.below(i + 1)));
+            }
+        }
+        for _ in 0..(4 + rng.below(14)) {
+            let k = if rng.chance(2, 3) { rng.pick(&hot) } else { 1000 + rng.below(heavy) };
+            if white_box {
+                out.push(format!("freq {}", k));
+            }
+            push(&mut out, format!("get {}", k));
+        }
+        if sync {
+            out.push("sync".into());
+            out.push("snap".into());
+        }
+        for i in 0..heavy {
+            if rng.chance(2, 3) {
+                push(&mut out, format!("inv {}", 1000 + i));
+            }
+        }
+        if sync {
+            out.push("sync".into());
+            out.push("snap".into());
+        }
+        let n = 140 + rng.below(300);
+        for i in 0..n {
+            out.push(format!("ins {} 1", 2000 + i));
+            if rng.chance(1, 8) {
+                let k = if rng.chance(1, 2) { rng.pick(&hot) } else { 2000 + rng.below(i + 1) };
+                if white_box {
+                    out.push(format!("freq {}", k));
+                }
+                out.push(format!("get {}", k));
+            }
+            if sync && rng.chance(1, 25) {
+                out.push("sync".into());
+            }
+            if white_box && rng.chance(1, 20) {
+                out.push("snap".into());
+            }
+        }
+        if sync {
+            out.push("sync".into());
+        }
+        out.push("snap".into());
+        for k in hot {
+            if white_box {
+                out.push(format!("freq {}", k));
+            }
+            push(&mut out, format!("ins {} 1", k));
+            push(&mut out, format!("get {}", k));
+        }
+        out.push("iter".into());
+        out.push("drop".into());
+        return out;
+    }
     if profile == Profile::Batch {
         // Phases: a burst of inserts at one clock reading (more than one eviction batch),
         // a clock step to / beyond the deadline, then lookups of keys from all over the
@@ -271,7 +357,17 @@ pub fn gen_case(seed: u64, kind: &'static str, profile: Profile, len: usize, whi
                 match rng.below(6) {
                     0 | 1 => push(&mut out, format!("has {}", k)),
                     2 | 3 => push(&mut out, format!("get {}", k)),
-                    4 => push(&mut out, "iter".into()),
+                    4 => {
+                        // every other iteration is created first and consumed after a clock step
+                        if out.len() % 2 == 0 {
+                            {
+                    let d = step_choices[out.len() % step_choices.len()];
+                    push(&mut out, format!("iterlag {}", d));
+                }
+                        } else {
+                            push(&mut out, "iter".into());
+                        }
+                    }
                     _ => push(&mut out, format!("ins {} {}", k, rng.below(12))),
                 }
             }
@@ -294,7 +390,7 @@ pub fn gen_case(seed: u64, kind: &'static str, profile: Profile, len: usize, whi
                 Profile::Churn => (38, 14, 4, 2, 24, 3, 3, 6, 6),
                 Profile::Growth => (50, 18, 4, 3, 6, 1, 2, 8, 8),
                 Profile::Scan => (40, 45, 2, 1, 3, 0, 0, 6, 3),
-                Profile::Big | Profile::Batch | Profile::Oversize => (55, 20, 2, 1, 8, 1, 1, 2, 10),
+                Profile::Big | Profile::Batch | Profile::Oversize | Profile::Regrow => (55, 20, 2, 1, 8, 1, 1, 2, 10),
             };
         let mut acc = 0;
         let mut pick = |p: u64| { acc += p; r < acc };
@@ -312,7 +408,16 @@ pub fn gen_case(seed: u64, kind: &'static str, profile: Profile, len: usize, whi
             let k = key(&mut rng);
             push(&mut out, format!("has {}", k));
         } else if pick(p_iter) {
-            push(&mut out, "iter".into());
+            // every other iteration is created first and consumed after a clock step (no draw
+            // from the PRNG: the rest of the history is the one the seed always gave)
+            if out.len() % 2 == 0 {
+                {
+                    let d = step_choices[out.len() % step_choices.len()];
+                    push(&mut out, format!("iterlag {}", d));
+                }
+            } else {
+                push(&mut out, "iter".into());
+            }
         } else if pick(p_inv) {
             let k = key(&mut rng);
             push(&mut out, format!("inv {}", k));
@@ -449,6 +554,19 @@ pub fn gen_inject(seed: u64, profile: Profile, len: usize) -> Vec<String> {
     if cfg.cap == Some(0) {
         cfg.cap = Some(3);
     }
+    // a third of the cases end with a refill (C03): weight = value, no expiry, capacity 1..8
+    let refill = {
+        let mut r2 = Rng::new(splitmix(seed ^ 0x0c03_0c03));
+        if r2.chance(1, 3) {
+            cfg.weigher = WeigherKind::Val;
+            cfg.ttl = None;
+            cfg.tti = None;
+            cfg.cap = Some(1 + r2.below(8));
+            true
+        } else {
+            false
+        }
+    };
     let nkeys = 1 + rng.below(4);
     let irate = rng.pick(&[1u64, 2, 3, 5]);
     let mut line = cfg.line(seed, profile);
@@ -511,6 +629,32 @@ pub fn gen_inject(seed: u64, profile: Profile, len: usize) -> Vec<String> {
     }
     out.push("sync".into());
     out.push("snap".into());
+    if refill && !out[0].contains("cap=2 w=val ttl=none tti=none hash=id") {
+        // C03 after a phase with steps injected into maintenance runs: nothing is injected any
+        // more, every key of the phase is invalidated, and `max_capacity` fresh keys of weight 1
+        // are inserted with a maintenance run after each: all of them fit and must be retained
+        out.push("noinject".into());
+        for t in (0..nthreads).chain(10..16) {
+            out.push(format!("penq {}", t));
+        }
+        for k in 0..nkeys {
+            out.push(format!("pinv 0 {}", k));
+            out.push("penq 0".into());
+        }
+        out.push("sync".into());
+        out.push("sync".into());
+        out.push("snap".into());
+        let c = cfg.cap.unwrap_or(1);
+        for i in 0..c {
+            out.push(format!("pins 0 {} 1", 1000 + i));
+            out.push("penq 0".into());
+            out.push("sync".into());
+        }
+        out.push("snap".into());
+        for i in 0..c {
+            out.push(format!("has {}", 1000 + i));
+        }
+    }
     out.push("drop".into());
     out
 }
